@@ -37,36 +37,75 @@ def rule_op_gates(check):
     lits = [n for n in hir.walk(new.body) if n.get("k") == "Struct" and (n["res"].get("path") or "").endswith("CsiMethods")]
     check.floor(R, "CsiMethods literals in new", len(lits), 1)
     want_names = {"plus_operator": ("DD_PLUS_OPERATOR", "plusOperator"), "tpl_operator": ("DD_TEMPLATE_LITERAL_OPERATOR", "tplOperator")}
+    def terms_of_cond_list(fn_, conds):
+        terms = []
+        for c in conds:
+            if c["t"] == "bool":
+                for t in T._conjuncts(c["e"]):
+                    t = hir.peel(t)
+                    neg = not c["v"]
+                    while t.get("k") == "Unary" and t["op"] == "Not":
+                        neg = not neg
+                        t = hir.peel(t["x"])
+                    if t.get("k") == "Field" and t["field"] == "operator":
+                        terms.append(("!" if neg else "") + "operator")
+                    elif t.get("k") == "Binary" and t["op"] in ("Eq", "Ne"):
+                        sides = [hir.peel_transparent(t["l"]), hir.peel_transparent(t["r"])]
+                        cs = [hir.def_path_of(x) for x in sides if hir.def_path_of(x)]
+                        fl = [x["field"] for x in sides if x.get("k") == "Field"]
+                        eq = (t["op"] == "Eq") != neg
+                        terms.append("%s%s%s" % (fl[0] if fl else "?", "==" if eq else "!=", cs[0].split("::")[-1] if cs else "?"))
+                    else:
+                        terms.append("?" + hir.describe(t)[:40])
+            elif c["t"] == "pat" and c.get("scrut") is not None:
+                sc = hir.peel_transparent(c["scrut"])
+                if sc.get("k") == "Field" and sc["field"] == "src":
+                    v = hir.pat_variant(c["pat"])
+                    if isinstance(v, str):
+                        terms.append("src%s%s" % ("==" if c["v"] else "!=", v.split("::")[-1]))
+        return terms
+
+    def producing_terms(fn_, e, depth=0):
+        """list of term-lists, one per site that can produce Some(entry) for expression e"""
+        e = hir.peel_transparent(e)
+        if hir.is_call(e) and (hir.callee_name(e) or e.get("method")) == "find":
+            cl = hir.peel(hir.call_args(e)[1])
+            if cl.get("k") == "Closure":
+                src = hir.peel(hir.call_args(e)[0])
+                full = src.get("k") == "MethodCall" and src["method"] in ("iter",)
+                return [terms_of_cond_list(fn_, [{"t": "bool", "e": cl["body"], "v": True}]) + ([] if full else ["?partial-iteration"])]
+        l = hir.local_of(e)
+        if l and depth < 3:
+            b_ = fn_.bindings().get(l[0])
+            out = []
+            if b_ and b_["origin"][0] == "let" and b_["origin"][1] is not None:
+                init = hir.peel(b_["origin"][1])
+                if not (init.get("k") == "Path" and (init["res"].get("ctor_path") or "").split("::")[-1] == "None"):
+                    out += producing_terms(fn_, init, depth + 1)
+            for a_ in fn_.assignments_to(l[0]):
+                r = hir.peel(a_["r"])
+                if r.get("k") == "Path" and (r["res"].get("ctor_path") or "").split("::")[-1] == "None":
+                    continue
+                out.append(terms_of_cond_list(fn_, [c for c in fn_.conds_at(a_) if c["t"] in ("bool", "pat")]))
+            return out
+        return [["?unrecognised:" + hir.describe(e)[:40]]]
+
     for lit in lits:
         flds = {x["name"]: x["e"] for x in lit["fields"]}
         for field, (cname, cval) in want_names.items():
-            e = hir.peel_transparent(flds[field])
-            l = hir.local_of(e)
-            init = new.bindings()[l[0]]["origin"][1] if l else e
-            init = hir.peel(init)
-            ok = hir.is_call(init) and hir.callee_name(init) == "find"
-            terms = []
-            if ok:
-                cl = hir.peel(hir.call_args(init)[1])
-                for t in T._conjuncts(cl["body"]):
-                    t = hir.peel(t)
-                    if t.get("k") == "Field" and t["field"] == "operator":
-                        terms.append("operator")
-                    elif t.get("k") == "Binary" and t["op"] == "Eq":
-                        sides = [hir.peel_transparent(t["l"]), hir.peel_transparent(t["r"])]
-                        c = [hir.def_path_of(s) for s in sides if hir.def_path_of(s)]
-                        fl = [s["field"] for s in sides if s.get("k") == "Field"]
-                        terms.append("%s==%s" % (fl[0] if fl else "?", c[0].split("::")[-1] if c else "?"))
-                    else:
-                        terms.append("?" + hir.describe(t))
-                src, chain = hir.peel(hir.call_args(init)[0]), []
+            sites = producing_terms(new, flds[field])
             val = None
             try:
                 val = prog.const_str("visitor_util::" + cname)
             except AnchorMissing:
                 pass
-            good = ok and sorted(terms) == sorted(["operator", "src==%s" % cname]) and val == cval
-            check.expect(good, R, "%s/config/%s" % (R, field), hir.loc(lit), "%s = first entry with operator && src == %s (%r)" % (field, cname, val), "%s is filled from %s (const %s=%r)" % (field, terms, cname, val))
+            need = {"operator", "src==%s" % cname}
+            good = bool(sites) and val == cval
+            for terms in sites:
+                tset = set(terms)
+                if not need <= tset or any(t.startswith(("?", "!")) or "!=" in t for t in tset - need if not t.startswith("src!=")):
+                    good = False
+            check.expect(good, R, "%s/config/%s" % (R, field), hir.loc(lit), "%s = an entry with operator && src == %s (%r)" % (field, cname, val), "%s is filled under %s (const %s=%r): an entry that is not an operator with that source name can enable the operator" % (field, sites, cname, val))
     em = prog.fn("CsiMethods::empty")
     for lit in [n for n in hir.walk(em.body) if n.get("k") == "Struct"]:
         flds = {x["name"]: hir.peel(x["e"]) for x in lit["fields"]}
